@@ -58,6 +58,7 @@ class ProgGen:
         self.subs = []           # subroutine names defined (textually before or enclosing)
         self.used_names = set()
         self.loopnames = 0
+        self.big_used = False
 
     # ---- pieces ----
     def word(self, lo=1, hi=2):
@@ -152,6 +153,14 @@ class ProgGen:
         self.features.add("in")
         return "in " + items
 
+    def count(self, small):
+        """a loop count: mostly small; now and then a large one (leaf loops only: copies multiply when nested)"""
+        if self.r.random() < 0.06 and not self.big_used:
+            self.big_used = True
+            self.features.add("large-count")
+            return self.r.choice([5, 8, 9, 10, 12])
+        return self.r.choice(small)
+
     def loop(self, d):
         body = self.loop_body(d)
         k = self.r.random()
@@ -163,7 +172,7 @@ class ProgGen:
             self.features.add("maybe")
             return "maybe %s%s" % (body, few)
         if k < 0.55:
-            n = self.r.choice([0, 0, 1, 1, 2, 3])
+            n = self.count([0, 0, 1, 1, 2, 3])
             self.features.add("at-least")
             if self.allow_named and self.r.random() < 0.08:
                 self.loopnames += 1
@@ -175,7 +184,7 @@ class ProgGen:
             self.features.add("at-most")
             return "at most %d %s%s" % (n, body, few)
         if k < 0.88:
-            m = self.r.choice([0, 1, 1, 2])
+            m = self.count([0, 1, 1, 2])
             n = m + self.r.choice([0, 1, 2])
             if self.r.random() < 0.04:
                 m, n = n + 1, m
@@ -186,7 +195,7 @@ class ProgGen:
                 named = " named n%d" % self.loopnames
                 self.features.add("named-loop")
             return "between %d and %d %s%s%s" % (m, n, body, few, named)
-        n = self.r.choice([0, 1, 2, 3])
+        n = self.count([0, 1, 2, 3])
         self.features.add("exactly")
         return "exactly %d %s" % (n, body)
 
